@@ -375,6 +375,13 @@ func (x *Exec) callMayWriteHeap(fr *Frame, c *ast.CallExpr) bool {
 		if se, ok := f.X.(*ast.SelectorExpr); ok {
 			fn, _ = info.Uses[se.Sel].(*types.Func)
 		}
+	case *ast.IndexListExpr:
+		if id, ok := f.X.(*ast.Ident); ok {
+			fn, _ = info.Uses[id].(*types.Func)
+		}
+		if se, ok := f.X.(*ast.SelectorExpr); ok {
+			fn, _ = info.Uses[se.Sel].(*types.Func)
+		}
 	}
 	if fn == nil {
 		return true
